@@ -809,12 +809,19 @@ class Hugr(Mapping[Node, NodeData], Generic[OpVarCov]):
             assert n.idx == idx, "Nodes should be added contiguously"
 
         for (src_node, src_offset), (dst_node, dst_offset) in serial.edges:
+            src = Node(src_node, _metadata=get_meta(src_node))
+            dst = Node(dst_node, _metadata=get_meta(dst_node))
             if src_offset is None or dst_offset is None:
+                # an edge without port offsets is a state-order edge
+                hugr.add_order_link(src, dst)
                 continue
-            hugr.add_link(
-                Node(src_node, _metadata=get_meta(src_node)).out(src_offset),
-                Node(dst_node, _metadata=get_meta(dst_node)).inp(dst_offset),
-            )
+            src_order = _order_port_offset(hugr[src].op, Direction.OUTGOING)
+            dst_order = _order_port_offset(hugr[dst].op, Direction.INCOMING)
+            if src_offset == src_order and dst_offset == dst_order:
+                # the port after the signature's ports is the order port
+                hugr.add_order_link(src, dst)
+                continue
+            hugr.add_link(src.out(src_offset), dst.inp(dst_offset))
 
         return hugr
 
